@@ -214,9 +214,8 @@ class SolverWrapper:
                         self.solver.changeColsLower(len(idxs), idxs, lbs)
                     else:
                         # As a conservative fallback, raise LB via changeColsBounds using current UBs fetched via getCols
-                        status, nret, lowers, uppers, costs, nnz = self.solver.getCols(len(idxs), idxs)
-                        # Use returned uppers in the same order as idxs
-                        current_ubs = uppers.astype(np.float64, copy=False)
+                        # (getCol returns (status, cost, lower, upper, nnz); unlike getCols it does not require a sorted index set)
+                        current_ubs = np.array([self.solver.getCol(int(j))[3] for j in idxs], dtype=np.float64)
                         self.solver.changeColsBounds(len(idxs), idxs, lbs, current_ubs)
 
         finally:
